@@ -37,6 +37,8 @@ CLAIMED = {
             "turtle_unescape is a model of rdflib's short-string lexer validated only through the real SHACL round trips"),
     "C13": ("6 C13", "C13_prefix_map / C13_prefix_map_behaves, C13_priority (first URI prefix canonical, rest synonyms), C13_reverse (all group members registered, a shortest canonical, nothing invented; via a proved defaultdict-grouping lemma), C13_epm, C13_jsonld / C13_jsonld_terms (exactly the string terms and @prefix dictionaries under non-empty non-@ keys), C13_upgrade_canonical / C13_upgrade_strict (ALWAYS accepted by the strict constructor) / C13_upgrade_order (independent of dictionary order) / C13_upgrade_members (lexicographic minimum canonical, nothing dropped); for all inputs over arbitrary strings. Every loader is the strict constructor applied to these records, so the query theorems apply to the loaded converter.",
             "loading from a str path / Path versus the object is a runtime clause (json, pathlib) checked by the run only; from_rdflib is the prefix-map loader applied to namespaces()"),
+    "C12": ("6 C12", "C12_transitive (TransitiveError iff a string is both key and value), per-record theorems C12_curie_same / C12_kept / C12_gain / C12_canonical / C12_clash_noop (+ C12_registered_means), C12_unknown, and for injective mappings C12_remap_uri_ok / C12_rewire_ok (the result is a consistent strict converter: the re-pointed records never clash, by injectivity and the clash test) and C12_idem (rewire twice = once, records equal); for all consistent strict converters and all mappings.",
+            "the code works on a private copy of the input converter (value-level model); non-injective mappings are outside the quantifier (the strict constructor may then reject)"),
 }
 NOT_YET = {}
 
